@@ -667,6 +667,15 @@ def c10(ctx):
                 opts = dict(ALL_OPTS[n % 8]) if cons == "json" else dict(OPTS0)
                 cases.append(case("C10", "extcmp", cons if cons not in ("plain", "unfold") else "json", stream=st, opts=opts, sub=dict(consumer=cons), origin="GenEvents"))
                 n += 1
+    # member names recurring across sibling objects, by reference, into the unfolder with its key cache on: OnKeyRef must mean OnKey
+    names = [b"a", b"b", b"c", b"", b"dd"]
+    for hist in ([0, 1, 2, 0], [0, 1, 0, 1, 2, 0], [3, 0, 1, 3], [0, 1, 2, 3, 4, 0, 2, 4]):
+        st = [streams.ev("arrS", "arrS", (), len(hist), "any")]
+        for j, h in enumerate(hist):
+            st += [streams.ev("objS", "objS", (), -1, "any"), streams.ev("key", "keyref", list(names[h])), streams.ev("int", "int8", streams.canon(j)), streams.ev("objE", "objE")]
+        st.append(streams.ev("arrE", "arrE"))
+        for cap in (0, 1, 2, 3):
+            cases.append(case("C10", "extcmp", "json", stream=st, opts=dict(OPTS0), sub=dict(consumer="unfold", keycache=cap), origin="recurring member names by reference, key cache %d" % cap))
     # lengths and counts tied to internal constants: by-reference texts of every length 0..71, byte arrays, and every family of
     # typed array / map with 127..257 elements
     for st in streams.length_sweep(ctx.quick):
@@ -1506,6 +1515,10 @@ def c15(ctx):
             flat = {("k%d" % i) + S()[:3]: S() for i in range(4)}
             cases.append(case("C15", "alias", fmt, doc=enc_doc(fmt, flat), cuts=sorted(rnd.sample(range(1, len(enc_doc(fmt, flat))), 4)),
                               sub=dict(target="mapstr", follow=enc_doc(fmt, {"o": S()}), gc=False, keycache=2), origin="flat map %d" % n))
+            # ... and a user-defined state that keeps the member names it is handed
+            fd = enc_doc(fmt, flat)
+            for cuts in ([], sorted(rnd.sample(range(1, len(fd)), 3)), list(range(1, len(fd)))):
+                cases.append(case("C15", "alias", fmt, doc=fd, cuts=cuts, sub=dict(target="ukeys", follow=enc_doc(fmt, {"other" + S()[:2]: "x", "zz": S()}), gc=False), origin="user state keeping names %d" % n))
     # texts exactly as long as / one off the parsers' internal buffers, two per document, cut at EVERY position
     def txt(L, off):
         return "".join(chr(97 + (j * 7 + off) % 26) for j in range(L))
@@ -1556,6 +1569,8 @@ def c19(ctx):
     for s in pick_diverse([s for s in shapes if len(s) > 1], shape_sig, 200 if ctx.quick else 1500, rnd):
         pool += streams.fills(s, 1, rnd)[:1]
     pool += [st for st in streams.length_sweep(True) if len(st) <= 4][::7]
+    # (again: no map event with two or more entries - its byte image depends on Go's map iteration order)
+    pool = [st for st in pool if not any(e["k"] == "xobj" and len(e["e"]) >= 2 for e in st)]
     rnd.shuffle(pool)
     nround = 12 if ctx.quick else 60
     per = 48
